@@ -671,7 +671,7 @@ void eb_mul_lodah(eb_t r, const eb_t p, const bn_t k) {
 	bn_t t, n;
 	size_t bits;
 
-	if (bn_is_zero(k)) {
+	if (bn_is_zero(k) || eb_is_infty(p)) {
 		eb_set_infty(r);
 		return;
 	}
